@@ -52,6 +52,10 @@ func (fr *Frame) loopCut(h *ssa.BasicBlock, n int, body map[*ssa.BasicBlock]bool
 	}
 	st := entry.clone()
 	fr.havocLoop(st, h, body, lc, entry)
+	if fr.heads == nil {
+		fr.heads = map[*ssa.BasicBlock]*State{}
+	}
+	fr.heads[h] = st.clone()
 	var phis []*ssa.Phi
 	for _, in := range h.Instrs {
 		if p, ok := in.(*ssa.Phi); ok {
@@ -101,6 +105,17 @@ func (fr *Frame) loopBack(from, h *ssa.BasicBlock, es *State) {
 	for i, cl := range lc.Invariants {
 		g := fr.evalClause(sc, cl)
 		x.c.oblige(fr.invName("inv-pres", n, cl, i), "inv-pres", x.target, "invariant "+cl.Text, fr.pos(from.Instrs[len(from.Instrs)-1].Pos()), es.Reach, g, x.topReqs)
+	}
+	if len(lc.Modifies) > 0 {
+		// the explicit loop modifies clause is checked: one iteration changes nothing else that
+		// existed at the loop head
+		head := fr.heads[h]
+		hs := fr.scope(head, fr.entry)
+		pre := x.target + "#loop-frame:loop" + fmt.Sprint(n)
+		if !fr.top {
+			pre = x.target + "#loop-frame:" + fr.prefix + ":loop" + fmt.Sprint(n)
+		}
+		x.frameCheck(fr, lc.Modifies, hs, head, es, x.get(head, "alloc"), pre, "loop modifies clause")
 	}
 }
 
@@ -291,7 +306,7 @@ func (fr *Frame) scanInstr(fp *footprint, in ssa.Instruction, inLoop func(ssa.Va
 		}
 		ct := x.w.Contracts[key]
 		if ct != nil && ct.HasSpec && !ct.Inline {
-			if ct.ModAll || len(ct.Modifies) > 0 {
+			if ct.ModAll || (len(ct.Modifies) > 0 && !(explicit && depth == 0)) {
 				fp.all = true
 			}
 			if !ct.pureNoAlloc() {
